@@ -18,6 +18,14 @@ def pushAt (m : BlockMap) (k x : Nat) : BlockMap :=
 /-- mirrors `if let Entry::Occupied(mut e) = m.entry(k) { e.get_mut().retain(p) }` -/
 def retainAt (m : BlockMap) (k : Nat) (p : Nat → Bool) : BlockMap :=
   match m k with | some v => set m k (some (v.filter p)) | none => m
+/-- `Vec::retain` with a closure that carries a flag from element to element (`let mut found = ..; v.retain(|it| { .. })`):
+    `f flag it = (new flag, keep?)` -/
+def retainState (f : Bool → Nat → Bool × Bool) : Bool → List Nat → List Nat
+  | _, [] => []
+  | st, x :: r => if (f st x).2 then x :: retainState f (f st x).1 r else retainState f (f st x).1 r
+/-- mirrors `if let Entry::Occupied(mut e) = m.entry(k) { let mut flag = init; e.get_mut().retain(|it| ..flag..) }` -/
+def retainStateAt (m : BlockMap) (k : Nat) (init : Bool) (f : Bool → Nat → Bool × Bool) : BlockMap :=
+  match m k with | some v => set m k (some (retainState f init v)) | none => m
 /-- mirrors `if e.get().is_empty() { e.remove(); }` -/
 def removeIfEmpty (m : BlockMap) (k : Nat) : BlockMap :=
   match m k with | some [] => set m k none | _ => m
